@@ -328,3 +328,42 @@ META["C07"] = {
     "floors": {"quick": {"inlined_contexts": 4000, "evaluation_pairs": 9000, "random_copy_checks": 200, "distinct_nontrivial": 2500},
                "thorough": {"inlined_contexts": 70000, "evaluation_pairs": 300000, "random_copy_checks": 4000, "distinct_nontrivial": 40000}},
 }
+
+
+META["C08"] = {
+    "level": "translation_validation",
+    "rule": "G_custom contexts: 2-8 (plus repeats) custom nodes drawn from all 24 library operation families with parameters varied "
+            "independently of the argument types, the same family repeated with other parameters on identical argument types, "
+            "operations nested in a called graph and in an iterate body; plus a systematic collision probe: for every family, "
+            "parameterisations #0, #1, #7, #0 on identical argument types in one context; a case is one context; non-trivial = "
+            "instantiated, >= 2 custom nodes and at least one compared evaluation; distinct by structural hash incl. parameters",
+    "assumptions": COMMON_ASSUMPTIONS + [
+        "reference semantics: each Custom node is evaluated through a fresh single-operation instantiation for the argument types at "
+        "hand (what the library's unit tests do), inside the observing evaluator",
+        "contexts that fail to BUILD (type errors at custom_op) are not cases",
+    ],
+    "floors": {"quick": {"contexts": 1000, "instantiated": 800, "evaluation_pairs": 1500,
+                         "contexts_with_two_parameterisations_of_one_family": 300, "distinct_nontrivial": 600},
+               "thorough": {"contexts": 25000, "instantiated": 20000, "evaluation_pairs": 60000,
+                            "contexts_with_two_parameterisations_of_one_family": 8000, "distinct_nontrivial": 15000}},
+}
+
+
+META["C11"] = {
+    "level": "exploration",
+    "rule": "random histories of 30-120 API calls over 1-2 contexts and up to 6 graphs: create graph, add node of any operation through "
+            "the typed builder (valid and invalid arguments), crafted bad additions (dependency from another graph / context, giant "
+            "types that only fail the size estimate, add_node_with_type with a valid and an invalid type, call / iterate with "
+            "unfinalized, younger or foreign callees), node and graph names (fresh / duplicate / on finalized), node and graph "
+            "annotations, set output (own / foreign node, repeated), finalize graph, set main (own / foreign graph), finalize context, "
+            "read-only getters; a case is one history; non-trivial = at least 3 rejected and 10 accepted calls; distinct by hash of the "
+            "call log",
+    "assumptions": COMMON_ASSUMPTIONS + [
+        "state is observed through the read-only hook Context::verif_dump (feature verif-hooks) and the serialized context, at the "
+        "quiescent point after every call",
+        "sequential model = transition relation over that dump: a failed or read-only call must leave dump and serialized text "
+        "identical; a successful call must produce exactly the predicted post-state; mutators on finalized graphs / contexts must fail",
+    ],
+    "floors": {"quick": {"histories": 2500, "api_calls": 150000, "calls_err": 20000, "no_effect_checks": 30000, "distinct_nontrivial": 2000},
+               "thorough": {"histories": 80000, "api_calls": 5000000, "calls_err": 600000, "no_effect_checks": 1000000, "distinct_nontrivial": 60000}},
+}
